@@ -271,7 +271,7 @@ def searches(tier):
     return [Search('scanner_and_addressing', 'enum', cases_AD(tier), shards=16),
             Search('skip_tables', 'enum', cases_C(tier), shards=16),
             Search('perturb_all_tokens', 'enum', cases_B_fill(tier), shards=16),
-            Search('perturb', 'hyp', lambda: case_B(files), n=480 if q else 24000, shards=16, max_shrink_s=15)]
+            Search('perturb', 'hyp', lambda: case_B(files), n=1600 if q else 24000, shards=16, max_shrink_s=15)]
 
 
 # ------------------------------------------------------------------------------------------------
